@@ -320,10 +320,12 @@ pub fn run_scenario(
         // (and the same external RNG stream), so that pairs of runs differing in exactly one input can be formed (C14)
         let bseed = mb["bseed"].as_u64().unwrap_or(0);
         let bkey = if bseed == 0 { 1000 + mi as u64 } else { bseed };
+        let rvar = mb["rvar"].as_u64().unwrap_or(0);
+        let zb = mb["zb"].as_u64().unwrap_or(0) as usize; // 1-based position whose blinding factors are all zero
         let blinds: Vec<Vec<Scalar>> = (0..m)
             .map(|j| {
                 (0..t)
-                    .map(|k| hash_scalar(&[b"bppv-blinding", &ctx.run_seed.to_le_bytes(), &sidx.to_le_bytes(), &bkey.to_le_bytes(), &(j as u64).to_le_bytes(), &(k as u64).to_le_bytes()]))
+                    .map(|k| if zb == j + 1 { Scalar::ZERO } else { hash_scalar(&[b"bppv-blinding", &ctx.run_seed.to_le_bytes(), &sidx.to_le_bytes(), &bkey.to_le_bytes(), &(j as u64).to_le_bytes(), &(k as u64).to_le_bytes()]) })
                     .collect()
             })
             .collect();
@@ -364,7 +366,7 @@ pub fn run_scenario(
         let proof = match witness {
             Err(_) => None, // the caller cannot even form a witness: no proof
             Ok(w) => {
-                let mut ext = RngModel::new(mb["rng"].as_str().unwrap_or("chacha"), ctx.run_seed ^ sidx.wrapping_mul(0x100000001b3) ^ (bkey << 32));
+                let mut ext = RngModel::new(mb["rng"].as_str().unwrap_or("chacha"), ctx.run_seed ^ sidx.wrapping_mul(0x100000001b3) ^ (bkey << 32) ^ rvar.wrapping_mul(0x9e3779b97f4a7c15));
                 if rec.is_some() {
                     merlin::trace::start();
                     grec_start();
